@@ -64,6 +64,40 @@ def uaOk (cfg : HttpConfig) (r : HttpReq) : Bool := cfg.userAgent == [] || cfg.u
 def admits (cfg : HttpConfig) (r : HttpReq) : Bool :=
   r.method == "POST".toList && headersOk cfg r && uriOk cfg r && uaOk cfg r
 
+/-! ### `(*HTTP).request` statement by statement (the lines of `Gen.HttpGate`) -/
+
+/-- the loop over `h.Config.Headers`: `valid` after it (`break` at the first mismatch) -/
+def headerLoopGo (r : HttpReq) : List Str → Bool
+  | [] => true
+  | h :: hs =>
+    match splitColonSpace h with                              -- NameValue := strings.SplitN(Header, ": ", 2); len(NameValue) > 1
+    | some (n, v) =>
+      if ignoredHeader n then headerLoopGo r hs               -- ignore == true
+      else if lowerS (r.get n) != lowerS v then false         -- valid = false; break
+      else headerLoopGo r hs
+    | none => headerLoopGo r hs
+
+/-- the loop over `h.Config.Uris`: `valid` after it -/
+def uriLoopGo (uri : Str) : List Str → Bool
+  | [] => false
+  | u :: us => if uri == u then true else uriLoopGo uri us
+
+inductive HttpOutcome where
+  | fake404      -- the decoy page, the body is never looked at
+  | parsed       -- response headers set, body handed to parseAgentRequest
+  deriving DecidableEq, Repr
+
+/-- the body of `request` down to the call of `parseAgentRequest`, guard by guard -/
+def requestGo (cfg : HttpConfig) (r : HttpReq) : HttpOutcome :=
+  if headerLoopGo r cfg.headers == false then .fake404
+  else if (cfg.uris.length > 0 && !(cfg.uris.length == 1 && cfg.uris.head? == some [])) && !(uriLoopGo r.requestUri cfg.uris) then .fake404
+  else if cfg.userAgent != [] && cfg.userAgent != r.get "User-Agent".toList then .fake404
+  else .parsed
+
+/-- the routes of `Start`: POST goes to `request`, GET and every other method to the decoy -/
+def serveGo (cfg : HttpConfig) (r : HttpReq) : HttpOutcome :=
+  if r.method == "POST".toList then requestGo cfg r else .fake404
+
 /-- response headers added to every admitted answer -/
 def responseHeaders (cfg : HttpConfig) : List (Str × Str) :=
   cfg.respHeaders.filterMap fun h => (splitColon h).map fun (n, v) => (trimS n, trimS v)
